@@ -39,6 +39,7 @@ type PropSpec struct {
 	Bounds      map[string]string // tier -> description
 	Outside     []string
 	Level       string
+	Static      func(ld *Loaded) (facts []string, violations []string) // structural side-conditions read from SSA
 }
 
 var props = map[string]*PropSpec{}
@@ -359,6 +360,19 @@ func cmdCheck(args []string) int {
 			}
 		}
 	}
+	var staticFacts []string
+	if p.Static != nil {
+		facts, viols := p.Static(ld)
+		staticFacts = facts
+		for i, v := range viols {
+			file := filepath.Join(vdir, fmt.Sprintf("static-%d.txt", i))
+			os.WriteFile(file, []byte(v+"\n"), 0o644)
+			lines = append(lines, fmt.Sprintf("VIOLATION property=%s replay=%s", id, file))
+			lines = append(lines, "  structural side-condition (read from SSA): "+v)
+			nViol++
+			exit = 1
+		}
+	}
 	sort.Strings(inconclusive)
 	if len(inconclusive) > 0 && exit == 0 {
 		exit = 2
@@ -420,6 +434,7 @@ func cmdCheck(args []string) int {
 		"reach_witnesses":     reach,
 		"assumes_pruned":      assumes,
 		"inconclusive":        inconclusive,
+		"structural_facts":    staticFacts,
 		"known_findings":      nKnown,
 		"encoding":            "regenerated from /repo working tree via go/packages + go/ssa (x/tools v0.29.0) on this run",
 	}
@@ -545,7 +560,12 @@ func nativeReplay(file string) (bool, string) {
 		if cut.All {
 			cnt = -1
 		}
-		os.WriteFile(f, []byte(strings.Replace(string(src), cut.Old, cut.New, cnt)), 0o644)
+		txt := strings.Replace(string(src), cut.Old, cut.New, cnt)
+		for _, rp := range cut.Repl {
+			txt = strings.ReplaceAll(txt, rp[0], rp[1])
+		}
+		txt += cut.Append
+		os.WriteFile(f, []byte(txt), 0o644)
 		repl[filepath.Join(repo, cut.File)] = f
 		if cut.Wrapper != "" {
 			w := filepath.Join(scratch, fmt.Sprintf("cutw%d.go", ci))
